@@ -356,6 +356,21 @@ class Effects(object):
                             tt = tb.term(t)
                             if not (tt.deps & rhs.deps) and not tt.volatile and not (rhs.deps & w):
                                 gens.append(('eq', tt, rhs))
+                # a, b = e1, e2  -> element-wise equalities
+                for t in a.targets:
+                    if isinstance(t, ast.Tuple) and isinstance(a.value, ast.Tuple) and len(t.elts) == len(a.value.elts):
+                        tnames = set()
+                        for te in t.elts:
+                            if isinstance(te, ast.Name):
+                                tnames.add('L:' + te.id)
+                        for te, ve in zip(t.elts, a.value.elts):
+                            if not isinstance(te, (ast.Name, ast.Attribute)):
+                                continue
+                            tt = tb.term(te)
+                            rv = tb.term(ve)
+                            if rv.volatile or tt.volatile or (rv.deps & tnames) or (rv.deps & w):
+                                continue
+                            gens.append(('eq', tt, rv))
                 # x = a if c else b  /  boolean-valued rhs: no extra facts
         elif node.kind == 'iter':
             self.target_syms(a.target, w)
